@@ -56,6 +56,8 @@ def style_value(rng, prop):
     pool = [E("GenericFontFamilyType", n) for n in ("default", "monospace", "sansSerif", "serif", "monospaceSansSerif",
                                                     "monospaceSerif", "proportionalSansSerif", "proportionalSerif")]
     pool += ["Arial", "Times New Roman", "a,b", "it's", 'q"uote', "Noto Sans JP"]
+    # named fonts spelled like a generic family keyword (strings, not the generic families), and a backslash
+    pool += ["serif", "default", "monospace", "sansSerif", "back\\slash", "end\\"]
     return ("T", tuple(rng.choice(pool) for _ in range(rng.choice([1, 1, 2, 3]))))
   if prop == "FontSize":
     return length(rng, ["em", "%", "c", "px", "rh"], [0.5, 1, 1.5, 2, 50, 80, 100, 120, 5, 36])
